@@ -2,6 +2,7 @@
 //
 //	css  <style>  => <sanitizeStyle(style)> <tokens of style> <tokens of the result>
 //	html <doc>    => <sanitizeStyleTags(doc)|ERR> <tokenizer items of doc> <sanitize.HTML(doc)|ERR> <report>
+//	                 <policy tokens of the rewritten doc (policy.go)> <start tags of the final output>
 //	text <text>   => <web.TextToHTML(text)> <URL match intervals in the escaped text>
 //	msg  <html> <text> => see msg.go (through enmime and the real webui.MailboxMessage handler)
 //
@@ -248,7 +249,14 @@ func exec(kind string, in []string) []string {
 		} else {
 			rep = report(final)
 		}
-		return []string{f0, its, f2, rep}
+		toks2, tags := "-", "-"
+		if ferr == nil {
+			toks2 = policyTokens(filtered)
+		}
+		if err == nil {
+			tags = finalTags(final)
+		}
+		return []string{f0, its, f2, rep, toks2, tags}
 	case "msg":
 		return execMsg(in)
 	case "text":
